@@ -34,7 +34,7 @@ impl Prop for P {
     fn meta() -> Meta {
         Meta {
             level: "exploration",
-            rule: "buffers of lengths 0..70, the SIMD lane sizes +-1, 5552+-2, 2*5552+-1, 65535..65537 and a tail to 300 KB with contents random / all 0xFF / all 0, split into 1..6 pieces at arbitrary points (incl. empty pieces), start value = checksum of an arbitrary prefix; mz_adler32_oxide, mz_crc32_oxide, mz_adler32, mz_crc32 chained over the pieces must equal the definitional checksum of the whole (null pointer => init value); run in the scalar build, the debug-assertion build and a build with the `simd` feature. Running values: CompressorOxide::adler32() after every call == Adler-32 of the input consumed so far; DecompressorOxide::adler32() == Adler-32 of the output so far (zlib mode, flat and ring); mz_stream.adler after every mz_deflate / mz_inflate call. Non-trivial = length >= 5553 with >= 2 pieces, or a SIMD-tail length (not a multiple of 16/32/64), or a running-value case with >= 2 calls; distinct by case fingerprint",
+            rule: "buffers of lengths 0..70, the SIMD lane sizes +-1, 5552+-2, 2*5552+-1, 65535..65537 and a tail to 300 KB with contents random / all 0xFF / all 0, split into 1..6 pieces at arbitrary points (incl. empty pieces), start value = checksum of an arbitrary prefix; mz_adler32_oxide, mz_crc32_oxide, mz_adler32, mz_crc32 chained over the pieces must equal the definitional checksum of the whole (null pointer => init value); run in the scalar build, the debug-assertion build and a build with the `simd` feature. Running values: CompressorOxide::adler32() after every call == Adler-32 of the input consumed so far (zlib compressors from every constructor incl. hand-composed flag words, raw ones with the compute flag, and raw-born ones switched to zlib); DecompressorOxide::adler32() == Adler-32 of the output so far (zlib mode, flat and ring); mz_stream.adler after every mz_deflate / mz_inflate call. Non-trivial = length >= 5553 with >= 2 pieces, or a SIMD-tail length (not a multiple of 16/32/64), or a running-value case with >= 2 calls; distinct by case fingerprint",
             assumptions: &["adler32_ref / crc32_ref are the definitions (known-answer tested, compared with zlib in the self-check)", "mz_stream.adler after mz_inflate: equals the Adler-32 of the plaintext prefix of length total_out when the call left output space unused; otherwise of some prefix of length in [total_out, total_out + 32768] (the wrapper decodes into its window ahead of delivery)"],
             dbg: true,
             simd: true,
